@@ -360,7 +360,92 @@ func ruleRunsAdjacent(c *Ctx, r *R) {
 	if k == 0 {
 		r.undecided("xslices.Runs|runs", fn.Pos(), "no run is appended inside the loop")
 	}
-	r.ok(openEnded >= 1, "xslices.Runs|last-run", fn.Pos(), "the final run must extend to the end of s (s[lo:])")
+	// every adjacent pair is compared: the call same(s[i-1], s[i]) sits under i < len(s) - the length itself, not a shortened
+	// one (the last pair would go uncompared and the last element always start a run of its own)
+	{
+		n := 0
+		for _, d := range deepInstrs(fn, 2) {
+			call, ok := d.in.(*ssa.Call)
+			if !ok || call.Call.IsInvoke() || staticCallee(&call.Call) != nil || len(call.Call.Args) != 2 {
+				continue
+			}
+			if _, isB := call.Call.Value.(*ssa.Builtin); isB {
+				continue
+			}
+			ld, ok := call.Call.Args[1].(*ssa.UnOp)
+			if !ok || ld.Op != token.MUL {
+				continue
+			}
+			ia, ok := ld.X.(*ssa.IndexAddr)
+			if !ok {
+				continue
+			}
+			n++
+			bounded := false
+			for _, g := range guardsOf(call.Block()) {
+				cf, ok := g.asCmp()
+				if !ok || cf.x != ia.Index || cf.op != token.LSS {
+					continue
+				}
+				if lc, isCall := cf.y.(*ssa.Call); isCall {
+					if bi, isB := lc.Call.Value.(*ssa.Builtin); isB && bi.Name() == "len" {
+						bounded = true
+					}
+				}
+			}
+			r.ok(bounded, "xslices.Runs|pair-scan-bound#"+itoa(n), call.Pos(), "same(s[i-1], s[i]) must be evaluated for every i < len(s): under a shorter bound the last pair is never compared and the last element always starts a run of its own")
+		}
+	}
+	if openEnded == 0 && k > 0 {
+		// `for start := 0; start < len(s); { end := runEnd(…); runs = append(runs, s[start:end]); start = end }`: no run is
+		// special - the loop is left only where the start of the next run has reached len(s), and each run starts where the
+		// one before ended (the run#k obligations above): the runs reach the end of s
+		consumed := false
+		instrs(fn, func(b *ssa.BasicBlock, _ int, in ssa.Instruction) {
+			sl, ok := in.(*ssa.Slice)
+			if !ok || resolveVal(sl.X) != s || sl.High == nil {
+				return
+			}
+			lo, ok := sl.Low.(*ssa.Phi)
+			if !ok {
+				return
+			}
+			hb := lo.Block()
+			iff, ok := hb.Instrs[len(hb.Instrs)-1].(*ssa.If)
+			if !ok {
+				return
+			}
+			cf, ok := (guard{cond: iff.Cond, val: true}).asCmp()
+			if !ok || cf.x != ssa.Value(lo) || cf.op != token.LSS {
+				return
+			}
+			lc, ok := cf.y.(*ssa.Call)
+			if !ok {
+				return
+			}
+			if bi, isB := lc.Call.Value.(*ssa.Builtin); !isB || bi.Name() != "len" || resolveVal(lc.Call.Args[0]) != s {
+				return
+			}
+			// the body (the blocks from which the header is reached again) leaves only through the header
+			only := true
+			for _, bb := range fn.Blocks {
+				if bb == hb || !reaches(bb, hb) || !hb.Succs[0].Dominates(bb) {
+					continue
+				}
+				for _, sc := range bb.Succs {
+					if sc != hb && !(reaches(sc, hb) && hb.Succs[0].Dominates(sc)) {
+						only = false
+					}
+				}
+			}
+			if only && hb.Succs[0].Dominates(b) {
+				consumed = true
+			}
+		})
+		r.ok(consumed, "xslices.Runs|last-run", fn.Pos(), "the final run must extend to the end of s (s[lo:], or a loop that cuts runs until their start reaches len(s))")
+	} else {
+		r.ok(openEnded >= 1, "xslices.Runs|last-run", fn.Pos(), "the final run must extend to the end of s (s[lo:])")
+	}
 	// the final run must be appended whenever s is non-empty
 	instrs(fn, func(b *ssa.BasicBlock, i int, in ssa.Instruction) {
 		sl, ok := in.(*ssa.Slice)
